@@ -22,7 +22,7 @@ RULE = ('H: every device reply sequence of length<=4 (quick) / <=5 (thorough) ov
         '_last_id_used and live subsets incl. exhaustion and wrap-around; S: open/close/read/remote-close histories of '
         'length<=4 over 1-2 streams with device scripts of OKAY/WRTE/CLSE/illegal packets (limit patched to 8); observed: '
         'packets received by the fake device, return values/exceptions')
-ASSUMPTIONS = ['single host thread (thread interleavings are C14)', 'timeouts are real-time, 40 ms per blocked read']
+ASSUMPTIONS = ['single host thread (thread interleavings are C14)', 'a blocked read ends because the scripted device runs out of data (UsbReadFailedError), never by real-time expiry (timeouts are 600 s)']
 TRUSTED = ['harness/props/c15.py (fake device)', 'lean/OpenHTF/Driver/C15.lean']
 CONST_PREFIXES = ['c15.']
 PROCS = 12
@@ -120,7 +120,7 @@ def run_real(case):
     dev = Device(frames)
     keys = [Key(i) for i in range(case['nkeys'])]
     try:
-      conn = ap.AdbConnection.connect(dev, rsa_keys=keys, timeout_ms=2000, auth_timeout_ms=2000)
+      conn = ap.AdbConnection.connect(dev, rsa_keys=keys, timeout_ms=600000, auth_timeout_ms=600000)
       res = 'R:conn:%d' % conn.maxdata
       if not (conn.systemtype == 'device' and conn.serial == 'SER' and conn.banner == 'banner'):
         res = 'R:conn-bad-fields'
@@ -176,7 +176,7 @@ def run_real(case):
       for op in case['ops']:
         try:
           if op[0] == 'O':
-            s = conn.open_stream('svc:', timeout_ms=40)
+            s = conn.open_stream('svc:', timeout_ms=600000)
             if s is None:
               res.append('none')
             else:
@@ -184,11 +184,11 @@ def run_real(case):
               res.append('s:%d' % s._transport.local_id)
           elif op[0] == 'X':
             if op[1] in streams:
-              streams[op[1]].close(timeout_ms=40)
+              streams[op[1]].close(timeout_ms=600000)
             res.append('ok')
           elif op[0] == 'R':
             if op[1] in streams:
-              d = streams[op[1]].read(timeout_ms=40)
+              d = streams[op[1]].read(timeout_ms=600000)
               res.append('d:' + '.'.join(str(ord(c) - 65) for c in d))
             else:
               res.append('err:closed')
@@ -332,6 +332,6 @@ MANIFEST = {
             'protocol error; a stream exists only after OKAY. Tie: real AdbConnection over a scripted fake device: all '
             'reply sequences up to a bound, id allocation with the limit patched, open/close/read/remote-close histories.',
     'note': 'Trusted: Lean kernel + standard axioms; fake device; Lean driver. Single host thread only (interleavings are '
-            'C14). Blocked reads use 40 ms real-time timeouts. Model follows the tree after fix: commit c2fb3321 (illegal '
+            'C14). Blocked reads end when the scripted device has no more data; real time never decides an outcome. Model follows the tree after fix: commit c2fb3321 (illegal '
             'packet raised TypeError).',
 }
